@@ -55,4 +55,3 @@ func VerifHoldShard(s storage.PeerStore, i int) func() {
 	sh.Lock()
 	return sh.Unlock
 }
-
